@@ -210,7 +210,7 @@ def analyse_tu(ast):
         for j, p in enumerate(params):
             pt = qtype(p)
             pinfo.append(dict(name=p.get('name', ''), ptr=is_ptr_type(pt), constptr=ptr_to_const(pt) if is_ptr_type(pt) else False,
-                              write=False, escape=False, passes=[]))
+                              ptype=(p.get('type') or {}).get('qualType', pt), write=False, escape=False, passes=[]))
             pid[p['id']] = j
         funcs[fname] = dict(static=(fn.get('storageClass') == 'static'), params=pinfo)
         stack = [fn]
@@ -402,7 +402,7 @@ def build_records(results):
                     for a, b in zip(fsum[k]['params'], f['params']):
                         a['write'] |= b['write']; a['escape'] |= b['escape']; a['passes'] += b['passes']
                 else:
-                    fsum[k] = json.loads(json.dumps(f))
+                    fsum[k] = json.loads(json.dumps(f)); fsum[k]['rel'] = r['rel']
     memo = {}
     def readonly(rel, callee, idx, fty, visiting):
         """may the idx-th argument of `callee` (called from TU rel) be written through / kept?"""
@@ -488,6 +488,20 @@ def build_records(results):
             records.append(dict(file=rel, name=c['name'], kind='inactive', ctype=c['ctype'], line=c['line'], written=False, escapes=False,
                                 addrTaken=False, insideIfZero=c['ifzero'], guardOnly=False, inObject=False,
                                 note='removed by the preprocessor: #if ' + c['cond']))
+    # the options structure is an INPUT of every routine (superlu_options_t *options): a routine that stores through it
+    # carries state from one call into the next ones that share the caller's structure.  One record per function with
+    # such a parameter: written = the function (or a callee it forwards the pointer to) may store through it.
+    for k, f in sorted(fsum.items(), key=lambda kv: (kv[1].get('rel', ''), kv[0][1])):
+        for idx, p in enumerate(f['params']):
+            if not p.get('ptr') or 'superlu_options_t' not in p.get('ptype', ''): continue
+            ro = readonly(f.get('rel'), k[1], idx, None, frozenset())
+            why = []
+            if p['write']: why.append('stores through it')
+            if p['escape']: why.append('keeps or converts the pointer')
+            if not ro and not why: why.append('forwards it to a routine that may store through it')
+            records.append(dict(file=f.get('rel', '?'), name='%s(%s)' % (k[1], p.get('name', '?')), kind='options-param', ctype=p.get('ptype', ''), line=0,
+                                written=not ro, escapes=bool(p['escape']), addrTaken=False, insideIfZero=False, guardOnly=False, inObject=False,
+                                note='; '.join(why) if why else 'only read'))
     records.sort(key=lambda x: (x['file'], x['name'], x['kind'], x['line']))
     return records
 
@@ -499,7 +513,7 @@ namespace Slu.Gen
 structure StaticObj where
   file : String          -- translation unit, relative to the repository
   name : String          -- object name (`function.name` for block-scope statics)
-  kind : String          -- file-static | global | local-static | inactive | nm-only
+  kind : String          -- file-static | global | local-static | inactive | nm-only | options-param
   ctype : String
   line : Nat
   written : Bool         -- some function of the library assigns / increments it (AST)
